@@ -243,7 +243,7 @@ def getCcittCompressed (r : R) (col : List Node) (g : Range) : Option (R × List
     let (nbinc0, e2, r2) := r1.getbits 6
     if e2 < 0 then none
     else
-      let nbinc := if nbinc0 = 63 then 0 else nbinc0
+      let nbinc := if nbinc0 = 63 ∧ cb.enc.nbits ≠ 63 * 8 then 0 else nbinc0
       if nbinc = 0 then some (r2, col.map (fun n => { mkvalNode n with val := v0 }))
       else
         let r3 := if g.from_ > 1 then skipN r2 ((nbinc : Int) * 8 * (g.from_ - 1)) else r2
